@@ -158,13 +158,28 @@ def e2(rep, w):
         ok = derives_from_call(org, a0, pops[1]) and derives_from_call(org, a1, pops[0]) and not derives_from_call(org, a0, pops[0])
     r.check(ok, 'binary_op_impl: op(second popped, first popped)', 'binary_op_impl applies the operator with its operands swapped: a - b computes b - a', f.loc())
     f = w.require_fn(VM + 'build_range_impl', 'C05')
-    org = origins(f)
-    vi = sorted((bi for bi, t in f.calls() if callee_name(t) == 'yarel::utils::validate_integer'), key=lambda b: len(f.dominators().get(b, ())))
+    # the validation (utils::validate_integer, directly or inside a helper that the engine has spliced in) passes its operand on: follow the two
+    # arguments of build_range back to the two pops through it
+    org = origins(f, extra_wrappers=('yarel::utils::validate_integer',))
+    pops = pops_in_order(f)
     br = [(bi, t) for bi, t in f.calls() if callee_name(t) == VM + 'build_range']
-    ok = len(vi) == 2 and len(br) == 1
+    ok = len(pops) == 2 and len(br) == 1
+
+    def pop_sources(pl):
+        qs = [q for q in org.get(pl['l'], ()) if q[0][0] == 'call' and q[0][1] in pops] if pl is not None else []
+        roots = {q[0][1] for q in qs}
+        if len(roots) > 1:
+            # both validated values travel in one pair (a helper's `Ok((begin, end))`): the field read tells which
+            ks = {q[-1] for q in qs}
+            pairs = [s_['r']['ops'] for b in f.blocks for s_ in b['s'] if s_.get('r', {}).get('rv') == 'agg' and s_['r'].get('tuple') and len(s_['r']['ops']) == 2]
+            if len(ks) == 1 and next(iter(ks)) in ('0', '1') and len(pairs) == 1:
+                p2 = op_place(pairs[0][int(next(iter(ks)))])
+                if p2 is not None:
+                    return {q[0][1] for q in org.get(p2['l'], ()) if q[0][0] == 'call' and q[0][1] in pops}
+        return roots
     if ok:
         a_begin, a_end = op_place(br[0][1]['args'][1]), op_place(br[0][1]['args'][2])
-        ok = derives_from_call(org, a_begin, vi[1]) and derives_from_call(org, a_end, vi[0]) and not derives_from_call(org, a_begin, vi[0])
+        ok = pop_sources(a_begin) == {pops[1]} and pop_sources(a_end) == {pops[0]}
     r.check(ok, 'build_range_impl: build_range(second popped, first popped)', 'a..b builds the range b..a', f.loc())
     f = w.require_fn(VM + 'add_impl', 'C05')
     org = origins(f)
